@@ -93,6 +93,8 @@ impl Method for SWMA {
 	#[inline]
 	fn next(&mut self, &value: &Self::Input) -> Self::Output {
 		if self.right_window.is_empty() {
+			// length 1 (the weights sum up to 1): keep `peek` in step with the returned value
+			self.numerator = value;
 			return value;
 		}
 
